@@ -1089,6 +1089,78 @@ def _well_conditioned(w, e):
     return True
 
 
+@op("optimize")
+def op_optimize(w, s):
+    """C08 on trees: two-site DMRG sweeps; every reported energy is variational, the state stays normalised and in its sector."""
+    from renormalizer.tn.gs import optimize_ttns
+    a, hh = s["a"], s["h"]
+    if not w.live_ok(a, hh):
+        return "skipped"
+    e, eh = w.h[a], w.h[hh]
+    if e.kind != "ttns" or eh.kind != "ttno" or not eh.meta.get("hermitian") or not nonzero(e) or len(e.obj.node_list) < 2:
+        return "skipped"
+    H = w.op_on(eh, e)
+    if H is None:
+        return "skipped"
+    if H is not eh.shadow:
+        return "skipped"     # the optimiser's preconditioner needs the diagonal of the operator on all indices (see hop_expr2)
+    if np.iscomplexobj(np.asarray(e.obj.root.tensor)):
+        return "skipped"
+    qntot = np.asarray(e.obj.qntot).reshape(-1)
+    mask = dense.sector_mask(w.model, qntot)
+    Hs = H[np.ix_(mask, mask)].real
+    hn = float(np.linalg.norm(Hs, 2)) if Hs.size else 0.0
+    if hn < 1e-6:
+        return "skipped"
+    evals, evecs = np.linalg.eigh((Hs + Hs.T) / 2)
+    full, _ = tree_sector_cap_ok(w, e)
+    # an iterative eigensolver cannot leave the invariant subspace of its start vector (undeclared symmetries of H):
+    # equality with the exact ground energy is only demanded when the start state overlaps with the ground space
+    v0 = w.tens(e)[mask]
+    g = evecs[:, evals <= evals[0] + 1e-9 * max(hn, 1.0)]
+    ov = float(np.linalg.norm(g.conj().T @ v0)) / max(float(np.linalg.norm(v0)), 1e-300)
+    src = e.obj.copy()
+    src.canonicalise()
+    src.normalize("ttns_and_coeff")
+    src.optimize_config.algo = s["algo"]
+    src.optimize_config.nroots = 1
+    proc = [[int(m), float(pc)] for m, pc in s["procedure"]]
+    w.cur_op = "optimize:" + s["algo"]
+    try:
+        e_list = optimize_ttns(src, eh.obj, proc)
+    except (Violation, HarnessError):
+        raise
+    except Exception as ex:
+        if s["algo"] == "arpack" and type(ex).__name__ in ("TypeError", "ArpackError", "ArpackNoConvergence"):
+            # scipy's ARPACK wrapper refuses local problems of dimension <= number of roots and zero start vectors: loud refusal of the back end
+            w.stats.probes["arpack_refused:" + type(ex).__name__] += 1
+            return "skipped"
+        raise V({"C08"}, "C08.tree.raised", f"optimize_ttns({s['algo']}): {type(ex).__name__}: {ex}", sig=f"C08.tree.raised:{s['algo']}:{type(ex).__name__}")
+    tol = (1e-9 if s["algo"] == "direct" else 1e-6) * hn
+    for k, en in enumerate(e_list):
+        w.stats.ratio("C08.tree.variational", max(evals[0] - float(en), 0.0), tol)
+        if float(en) < evals[0] - tol:
+            raise V({"C08"}, "C08.tree.below_exact", f"sweep {k}: reported energy {float(en)!r} below the exact ground energy {evals[0]!r} of the sector (algo {s['algo']})", sig=f"C08.tree.below_exact:{s['algo']}")
+    tmp = Entry("ttns", src, np.zeros(1), e.tid)
+    vec = w.dense_of(tmp)
+    w.put(s["out"], "ttns", src, vec, e.tid)
+    nrm = float(np.linalg.norm(vec))
+    if abs(nrm - 1) > 1e-8:
+        raise V({"C08"}, "C08.tree.norm", f"optimised tree state has norm {nrm!r}")
+    en_state = float(np.real(np.vdot(vec, H @ vec))) / nrm ** 2
+    if abs(en_state - float(e_list[-1])) > 10 * tol + 1e-12:
+        raise V({"C08"}, "C08.tree.energy_mismatch", f"last reported energy {float(e_list[-1])!r} but the returned state has energy {en_state!r} (algo {s['algo']}, procedure {proc})", sig=f"C08.tree.energy_mismatch:{s['algo']}")
+    caps_ok = all(int(m) >= max(src.bond_dims_exact[1:] + [1]) or int(m) >= 64 for m, _ in proc)
+    conv = len(e_list) >= 3 and abs(float(e_list[-1]) - float(e_list[-2])) <= tol
+    w.stats.probes["tree_optimize:" + s["algo"] + (":full" if full and caps_ok else "")] += 1
+    if full and caps_ok and conv and proc[-1][1] == 0 and (s["algo"] == "direct" or ov > 1e-3):
+        gap = float(e_list[-1]) - evals[0]
+        w.stats.ratio("C08.tree.exact_at_full_rank", gap, 10 * tol)
+        if gap > 10 * tol and not CALIBRATE:
+            raise V({"C08"}, "C08.tree.not_exact_at_full_rank", f"converged energy {float(e_list[-1])!r} above the exact {evals[0]!r} although every bond is at its cap (algo {s['algo']})", sig=f"C08.tree.not_exact_at_full_rank:{s['algo']}")
+    return "done"
+
+
 @op("lockstep")
 def op_lockstep(w, s):
     """C12: a linear tree and the chain implementation, stepped side by side from the same state with the same scheme."""
@@ -1281,6 +1353,10 @@ def p_ttno(w, rnd):
         terms = t
     if not terms:
         return None
+    if rnd.random() < w.header.get("knobs", {}).get("units_prob", 0.0):
+        # "units" knob: the same operator in other units, and weak couplings next to strong ones
+        sc = 10.0 ** rnd.choice([-9, -6, -3, 3, 6, 9])
+        terms = [dict(t, factor=[float(f"{t['factor'][0] * sc * (10.0 ** rnd.choice([0, 0, 0, -4, -8])):.6g}"), 0.0]) for t in terms]
     return {"op": "ttno", "tid": tid, "terms": terms, "algo": rnd.choice(["Hopcroft-Karp", "qr", "Hungarian"]), "vs_mpo": rnd.random() < 0.3, "out": w.new_handle()}
 
 
@@ -1469,6 +1545,23 @@ def p_evolve(w, rnd):
              "m": min(mx, 64) if rnd.random() < 0.8 else rnd.randint(1, max(1, min(mx, 8))), "normalize": rnd.random() < 0.7, "prep": rnd.random() < 0.6,
              "out": w.new_handle()}
         return s
+    return None
+
+
+@prop("optimize")
+def p_optimize(w, rnd):
+    hams = w.handles("ttno", pred=lambda e: e.meta.get("hermitian"))
+    rnd.shuffle(hams)
+    for hh in hams:
+        st = w.handles("ttns", w.h[hh].tid, pred=lambda e: nonzero(e) and len(e.obj.node_list) >= 2 and not np.iscomplexobj(np.asarray(e.obj.root.tensor)))
+        if not st:
+            continue
+        a = rnd.choice(st)
+        mx = int(min(max(w.h[a].obj.bond_dims_exact[1:] + [1]), 64))
+        m = mx if rnd.random() < 0.6 else rnd.randint(1, max(1, min(mx, 6)))
+        nsw = rnd.randint(2, 5)
+        proc = [[m, rnd.choice([0.4, 0.2, 0.0])] for _ in range(nsw - 2)] + [[m, 0.0], [m, 0.0]]
+        return {"op": "optimize", "a": a, "h": hh, "algo": rnd.choice(["davidson", "davidson", "arpack", "direct"]), "procedure": proc, "out": w.new_handle()}
     return None
 
 
